@@ -5,7 +5,7 @@ cd "$(dirname "$0")"
 go build -o bin/gosym ./cmd/gosym || exit 2
 for id in "$@"; do
   start=$(date +%s)
-  timeout 5400 bin/gosym check -j 8 --tier thorough $id > thorough_$id.log 2>&1
+  timeout 5400 bin/gosym check -j 8 --repo "${VP_RUN_REPO:-/repo}" --tier thorough $id > thorough_$id.log 2>&1
   rc=$?
   echo "$id rc=$rc secs=$(( $(date +%s) - start )) $(tail -n 1 thorough_$id.log | cut -c1-200)"
 done
